@@ -6,6 +6,9 @@
 3. set_system_version sweeps (known/unknown versions) vs the model, response classification vs the model
 4. property oracles directly on the real code (boundary-only shape changes, that version's values,
    atomic refusal, validation, error mapping)
+5. ONE client shared by TWO tasks: setters called at every scheduling point of a call in flight, every single request must be
+   the request of one configuration (harness/c18_shared.py)
+6. well-formed error documents at the edges of their format x every error status x every call / request (harness/c18_errors.py)
 """
 import json, logging, os, re
 import anyio
@@ -15,6 +18,8 @@ import switch_tables as st
 import switch_cases as sc
 import switch_validation as sv
 import c18_unicode as cu
+import c18_shared as csh
+import c18_errors as cer
 
 LEVEL = "proof"
 
@@ -546,7 +551,11 @@ def run(ctx):
                 "status x payload (every documented error code, malformed payloads); per call and per feature (method / header order / "
                 "query keys / body keys / outcome) the captured real requests may change only at the boundaries documented for that call; ONE "
                 "object per client is walked up and down through all versions (unknown ones interleaved, order from the seed) with every public "
-                "call after every switch and must send exactly the fresh-client request. A case is non-trivial when it issues a request or "
+                "call after every switch and must send exactly the fresh-client request; ONE object shared by TWO tasks: a second task calls every "
+                "setter (version pairs across every boundary / extremes / seed-chosen, host(s), power state, region, TLS context, certificate, callback, "
+                "all at once, there and back) at EVERY scheduling point of every public call and each single request must be the request of one "
+                "configuration; well-formed error documents at the edges of their format (problem type forms, optional members, code spellings, texts) x "
+                "every error status x every call / request of the call must raise the documented class with the server's values. A case is non-trivial when it issues a request or "
                 "is refused by a validation rule; distinct = distinct (client, version, call, variant)")
     # second reader of the tables
     for p in st.crosscheck_import(data, "nintendo.switch"):
@@ -625,6 +634,9 @@ def run(ctx):
                                "request_a": reqs(lo[-1]), "request_b": reqs(hi[0])})
 
     stateful_walk(ctx, mods, data, versions, cases, results)
+
+    # ONE client shared by TWO tasks: a setter called while a call is in flight (harness/c18_shared.py)
+    csh.run(ctx, mods, versions, drv, tbl_lines, diffs)
 
     # oracle: validation accepts exactly the well-formed values
     for c, r in zip(cases, results):
@@ -747,6 +759,9 @@ def run(ctx):
             ctx.violation("error-mapping:%s:%s:%s" % (client, tag, status), "%s.%s with status %d and payload %r: %s" % (client, call, status, payload, why),
                           {"client": client, "call": call, "status": status, "payload": payload, "real": real, "why": why})
     ctx.traces_validated += len(rlines)
+
+    # error documents at the edges of their format, every error status, every call and every request of it (harness/c18_errors.py)
+    cer.run(ctx, mods, data, drv, diffs)
 
     # ---- failing obligations -> failing inputs
     for name in sorted(failed):
